@@ -38,7 +38,7 @@ def bearer_cases(rng, tier):
 JWT_MUTS = ["none", "bad-sig", "wrong-key", "unknown-kid", "no-kid", "alg-none", "iss-wrong", "iss-missing", "aud-wrong", "aud-list-ok",
             "aud-missing", "exp-past", "exp-missing", "exp-bool", "typ-bad", "typ-suffix", "typ-suffix2", "typ-prefix", "typ-space", "typ-app", "typ-upper", "typ-int", "typ-absent", "scope-int",
             "scope-list", "sub-missing", "client_id-missing", "iat-missing", "iat-future", "jti-missing", "auth_time-str", "amr-str",
-            "groups-int", "not-jwt", "two-parts", "payload-not-json", "payload-list", "garbage-b64"]
+            "groups-int", "groups-false", "scope-zero", "roles-emptyobj", "entitlements-false", "auth_time-true", "not-jwt", "two-parts", "payload-not-json", "payload-list", "garbage-b64"]
 JWT_REQS = [dict(), dict(scopes=["a"]), dict(scopes=["z"]), dict(scopes=["a b"]), dict(groups=["g1"]), dict(groups=["gz"]),
             dict(roles=["r1"]), dict(roles=["rz"]), dict(entitlements=["e1"]), dict(entitlements=["ez"]), dict(scopes=["a"], groups=["g1"], roles=["r1"])]
 
@@ -150,6 +150,11 @@ def craft(muts, want_parts=False):
         elif m == "auth_time-str": payload["auth_time"] = "yesterday"
         elif m == "amr-str": payload["amr"] = "pwd"
         elif m == "groups-int": payload["groups"] = 7
+        elif m == "groups-false": payload["groups"] = False
+        elif m == "scope-zero": payload["scope"] = 0
+        elif m == "roles-emptyobj": payload["roles"] = {}
+        elif m == "entitlements-false": payload["entitlements"] = False
+        elif m == "auth_time-true": payload["auth_time"] = True
     jws = JsonWebSignature()
     if "alg-none" in muts:
         header["alg"] = "none"
@@ -181,7 +186,7 @@ def craft(muts, want_parts=False):
 
 BAD401 = {"bad-sig", "wrong-key", "unknown-kid", "no-kid", "alg-none", "iss-wrong", "iss-missing", "aud-wrong", "aud-missing", "exp-past",
           "exp-missing", "exp-bool", "typ-bad", "typ-int", "scope-int", "sub-missing", "client_id-missing", "iat-missing", "iat-future",
-          "jti-missing", "auth_time-str", "amr-str", "groups-int", "not-jwt", "two-parts", "payload-not-json", "payload-list", "garbage-b64"}
+          "jti-missing", "auth_time-str", "amr-str", "groups-int", "groups-false", "scope-zero", "roles-emptyobj", "entitlements-false", "not-jwt", "two-parts", "payload-not-json", "payload-list", "garbage-b64"}
 
 
 class V(JWTBearerTokenValidator):
@@ -201,9 +206,38 @@ def impl_jwt(c):
     return out
 
 
+def jwt_model_line(c):
+    """the RFC 9068 model's input: did the JWS layer accept (decided independently: HS256, kid selects K1/K2, HMAC recomputed), header typ, claims, now"""
+    import base64, hashlib, hmac as _hmac, json as _json
+    from props.c04 import enc
+    tok = craft(c["muts"])
+    def b64d(sg):
+        return base64.urlsafe_b64decode(sg + "=" * (-len(sg) % 4))
+    decoded, typ, claims = False, None, []
+    parts = tok.split(".")
+    try:
+        if len(parts) == 3 and all(ch in "ABCDEFGHIJKLMNOPQRSTUVWXYZabcdefghijklmnopqrstuvwxyz0123456789-_" for ch in "".join(parts)):
+            h = _json.loads(b64d(parts[0]))
+            p = _json.loads(b64d(parts[1]))
+            raw = {"k1": b"1" * 32, "k2": b"2" * 32}.get(h.get("kid")) if isinstance(h, dict) else None
+            if isinstance(h, dict) and isinstance(p, dict) and h.get("alg") == "HS256" and raw is not None:
+                sig = _hmac.new(raw, (parts[0] + "." + parts[1]).encode(), hashlib.sha256).digest()
+                if _hmac.compare_digest(sig, b64d(parts[2])):
+                    decoded, typ = True, h.get("typ")
+                    claims = [[k, enc(v)] for k, v in p.items()]
+                    typ = enc(typ)
+    except (ValueError, TypeError, AssertionError):
+        return None if decoded else {"jwt": True, "decoded": False, "issuer": ISS, "rs": RS, "now": 4 * int(CLOCK()), "req": c["req"]}
+    return {"jwt": True, "decoded": decoded, "typ": typ, "claims": claims, "issuer": ISS, "rs": RS, "now": 4 * int(CLOCK()), "req": c["req"]}
+
+
 def model_line(c):
     if c["kind"] != "bearer":
-        return None
+        ms.install_clock()
+        try:
+            return jwt_model_line(c)
+        except (TypeError, AssertionError):
+            return None          # a claim value outside the model's value universe (objects, non-quarter floats)
     st = c["state"]
     toks = []
     if st != "unknown":
@@ -254,7 +288,7 @@ def expected_jwt(c):
     def num(x):
         return isinstance(x, (int, float)) and not isinstance(x, bool)
     def listy(x):
-        return (not x) or isinstance(x, (str, list))
+        return x is None or isinstance(x, (str, list))
     ok = not (muts & {"bad-sig", "not-jwt", "two-parts", "payload-not-json", "payload-list", "garbage-b64", "alg-none"})
     ok = ok and key is K1 and header.get("kid") == "k1"
     typ = header.get("typ")
@@ -265,7 +299,7 @@ def expected_jwt(c):
     ok = ok and num(payload.get("iat")) and payload["iat"] <= now
     ok = ok and all(payload.get(k) for k in ("sub", "client_id", "jti"))
     at = payload.get("auth_time")
-    ok = ok and (not at or num(at))
+    ok = ok and (not at or num(at) or at is True)      # a JSON true is an int to isinstance: accepted by the library, harmless (observation)
     ok = ok and (not payload.get("amr") or isinstance(payload["amr"], list))
     ok = ok and all(listy(payload.get(k)) for k in ("scope", "groups", "roles", "entitlements"))
     if not ok:
